@@ -271,6 +271,18 @@ def run_impl(case):
             if K.n_params != len(th):
                 return {"status": "exception", "where": "n_params",
                         "error": f"n_params = {K.n_params}, expected {len(th)}"}
+            # history dimension: the hyper-parameter array is first used with other values (every
+            # entry point once), then overwritten IN PLACE with the intended ones -- the results
+            # must follow the values in the array, not the identity of the object
+            th_final = th.copy()
+            th[:] = th_final + 0.25
+            try:
+                K.build_covariance(th)
+                K.covariance_and_gradients(th)
+                K(arr(case["u"]), arr(case["v"]), th)
+            except Exception:
+                pass            # the warm-up values are only a history, not a compared input
+            th[:] = th_final
             out["build"] = np.asarray(K.build_covariance(th), dtype=float)
             cg = K.covariance_and_gradients(th)
             out["cag_K"] = np.asarray(cg[0], dtype=float)
@@ -494,6 +506,14 @@ def run_mean(case):
             th = vec(case["mtheta"])
             if m.n_params != len(th):
                 return {"status": "exception", "error": f"n_params {m.n_params} != {len(th)}"}
+            th_final = th.copy()
+            th[:] = th_final + 0.25
+            try:
+                m.build_mean(th)
+                m.mean_and_gradients(th)
+            except Exception:
+                pass
+            th[:] = th_final
             b = np.asarray(m.build_mean(th), dtype=float)
             mg = m.mean_and_gradients(th)
             q = arr(case["u"])
